@@ -51,9 +51,21 @@ def is_trivial_expr(e):
 
 
 class Tr:
-    def __init__(self, model_name, local_fns):
+    def __init__(self, model_name, local_fns, defs=None, stack=()):
         self.m = model_name
         self.local_fns = local_fns
+        self.defs = defs or {}       # name -> FunctionDef of the module (for inlining private helpers)
+        self.stack = stack           # helpers currently being inlined (recursion guard)
+
+    def inline(self, name, line):
+        """Skeleton of a private helper taking the model, inlined at its call site: argument
+        evaluation may raise, then the helper's body runs in its own return scope."""
+        if name in self.stack or len(self.stack) > 4:
+            raise Untranslatable('line %d: recursive helper %s' % (line, name))
+        d = self.defs[name]
+        mname = [a.arg for a in d.args.args if a.arg == 'model'][0]
+        sub = Tr(mname, self.local_fns, self.defs, self.stack + (name,))
+        return seq(['MayRaise %d' % line, '(Scope %s)' % sub.block(d.body)])
 
     # ---- expression classification -----------------------------------------------------
     def classify(self, node, line):
@@ -104,6 +116,10 @@ class Tr:
                 elif isinstance(a, ast.Starred) and isinstance(a.value, ast.Name):
                     argnames.add(a.value.id)
             if self.m in argnames:
+                if (isinstance(f, ast.Name) and f.id in self.local_fns and f.id.startswith('_')
+                        and f.id in self.defs and f.id not in API_NAMES):
+                    atoms.append(self.inline(f.id, line))
+                    continue
                 if isinstance(f, ast.Name) and (f.id in CALLEE_NAMES or f.id in self.local_fns):
                     atoms.append('CallApi %d' % line)
                     continue
@@ -268,7 +284,7 @@ def translate_all(repo=None):
             if not any(a.arg == 'model' for a in d.args.args):
                 errors.append('%s: %s has no `model` parameter' % (fname, n))
                 continue
-            tr = Tr('model', local_model_fns)
+            tr = Tr('model', local_model_fns, defs)
             try:
                 term = tr.block(d.body)
             except Untranslatable as e:
@@ -277,7 +293,7 @@ def translate_all(repo=None):
             import re
             lines = sorted({int(x) for x in re.findall(r'(?:MayRaise|Register|EvalMode|Forward|CallApi) (\d+)', term)})
             fns.append({'id': fid, 'name': n, 'file': fname, 'first_line': d.lineno, 'term': term,
-                        'raise_lines': lines})
+                        'raise_lines': lines, 'helper': n not in wanted})
             fid += 1
     return fns, errors
 
@@ -291,8 +307,12 @@ def write_generated(fns, path=None):
         out.append('(* %s:%s (def at line %d) *)' % (f['file'], f['name'], f['first_line']))
         out.append('Definition skel_%d : stmt := %s.' % (f['id'], f['term']))
         out.append('')
+    # the API functions (private helpers inlined at their call sites): these must be clean
     out.append('Definition skeletons : list (nat * stmt) := [%s].' %
-               '; '.join('(%d, skel_%d)' % (f['id'], f['id']) for f in fns))
+               '; '.join('(%d, skel_%d)' % (f['id'], f['id']) for f in fns if not f.get('helper')))
+    # private helpers on their own: only used to validate line classifications of injected crashes
+    out.append('Definition helper_skeletons : list (nat * stmt) := [%s].' %
+               '; '.join('(%d, skel_%d)' % (f['id'], f['id']) for f in fns if f.get('helper')))
     txt = '\n'.join(out) + '\n'
     old = open(path).read() if os.path.exists(path) else None
     if old != txt:
